@@ -1,6 +1,7 @@
 //! C04: the parsed tree is always structurally valid.
 //! K: `can_contain_type` on all 41 x 41 kind pairs vs the Lean `canContain`; real `validate()`
-//!    vs Lean `validateT` on every tree.
+//!    vs Lean `validateT` on every tree; random operation sequences on real `arena_tree::Node`s vs the
+//!    Lean link-array model (`ArenaTree.lean`), complete link dump compared after every operation.
 //! S: Lean `Shape` (containment on every edge + placement + table geometry + heading level) on
 //!    real parsed trees; parent/child/sibling link consistency walked through the public accessors.
 use crate::gen::{mixed_doc, Corpus};
@@ -221,7 +222,14 @@ pub fn run(cfg: &Cfg, rep: &mut Report) {
     let m = Model::from_env();
     let mut rng = Rng::new(cfg.seed ^ 0xC04);
     let corpus = Corpus::load();
-    rep.rule = "exhaustive: can_contain_type on all 41 x 41 kind pairs; documents (grammar/palette/bytes/corpus) x random extension/parse option vectors with the pairs escaped_char_spans+table and subscript-without-strikethrough+table over-weighted; distinct_nontrivial counts distinct (kind sequence, option bits) classes".into();
+    rep.rule = "exhaustive: can_contain_type on all 41 x 41 kind pairs; arena stage: random sequences of append/prepend/insert_after/insert_before/detach on 2..16 real arena_tree nodes, operands random subject to the operand conditions of the Lean theorems (new node is not an ancestor-or-self of the target, insert_* next to a node that has a parent); documents (grammar/palette/bytes/corpus) x random extension/parse option vectors with the pairs escaped_char_spans+table and subscript-without-strikethrough+table over-weighted; distinct_nontrivial counts distinct (kind sequence, option bits) classes".into();
+    // 0. arena_tree operation sequences vs the link-array model. Everything below builds trees with these
+    //    mutators: if they are broken the parsed-tree stages are meaningless (and may not terminate), so stop here.
+    arena_stage(cfg, rep, &m);
+    if rep.k_disagree_n > 0 || rep.s_fail_n > 0 {
+        rep.notes.push("arena_tree stage failed: containment-table and parsed-tree stages skipped".into());
+        return;
+    }
     // 1. containment table, exhaustive
     let mut bt = Batch::new();
     for (pk, pf) in KIND_WIRE {
@@ -286,6 +294,16 @@ pub fn replay(kind: &str, input: &str) -> Result<Option<String>, String> {
         }
         return Ok(None);
     }
+    if input.starts_with("arena ") {
+        arena_push(&mut bt, &mut rep, arena_parse(input).ok_or("bad arena replay input")?);
+        bt.run(&m, &mut rep);
+        for c in rep.s_fail.iter().chain(rep.k_disagree.iter()) {
+            if kind.is_empty() || c.kind == kind {
+                return Ok(Some(format!("{}: {}", c.kind, c.detail)));
+            }
+        }
+        return Ok(None);
+    }
     if input.starts_with("cancontain ") {
         return Err("containment-table entries are re-checked exhaustively by every run".into());
     }
@@ -299,4 +317,265 @@ pub fn replay(kind: &str, input: &str) -> Result<Option<String>, String> {
         }
     }
     Ok(None)
+}
+
+// ---------------------------------------------------------------------------------------------
+// Stage "arena": real `comrak::arena_tree::Node` operation sequences vs the Lean link-array model.
+
+type ANode<'a> = comrak::arena_tree::Node<'a, usize>;
+
+/// One operation: (name as in the driver protocol, first operand, second operand).
+/// `a p c` = p.append(c), `p p c` = p.prepend(c), `ia x c` = x.insert_after(c),
+/// `ib x c` = x.insert_before(c), `d x` = x.detach().
+type AOp = (&'static str, usize, usize);
+
+struct ACase {
+    n: usize,
+    ops: Vec<AOp>,
+}
+
+fn arena_request(c: &ACase) -> String {
+    let mut s = format!("arena {}", c.n);
+    for (op, x, y) in &c.ops {
+        if *op == "d" {
+            s.push_str(&format!(" d {}", x));
+        } else {
+            s.push_str(&format!(" {} {} {}", op, x, y));
+        }
+    }
+    s
+}
+
+fn arena_parse(input: &str) -> Option<ACase> {
+    let mut it = input.split(' ');
+    if it.next()? != "arena" {
+        return None;
+    }
+    let n: usize = it.next()?.parse().ok()?;
+    let mut ops = vec![];
+    while let Some(op) = it.next() {
+        let x: usize = it.next()?.parse().ok()?;
+        let op: &'static str = match op {
+            "a" => "a",
+            "p" => "p",
+            "ia" => "ia",
+            "ib" => "ib",
+            "d" => "d",
+            _ => return None,
+        };
+        let y: usize = if op == "d" { 0 } else { it.next()?.parse().ok()? };
+        if x >= n || y >= n {
+            return None;
+        }
+        ops.push((op, x, y));
+    }
+    Some(ACase { n, ops })
+}
+
+fn arena_dump<'a>(nodes: &[&'a ANode<'a>]) -> String {
+    let o = |x: Option<&'a ANode<'a>>| match x {
+        Some(n) => n.data.to_string(),
+        None => "-".to_string(),
+    };
+    nodes
+        .iter()
+        .map(|n| format!("{},{},{},{},{}", o(n.parent()), o(n.previous_sibling()), o(n.next_sibling()), o(n.first_child()), o(n.last_child())))
+        .collect::<Vec<_>>()
+        .join("/")
+}
+
+fn arena_apply<'a>(nodes: &[&'a ANode<'a>], op: &AOp) {
+    let (x, y) = (nodes[op.1], nodes[op.2]);
+    match op.0 {
+        "a" => x.append(y),
+        "p" => x.prepend(y),
+        "ia" => x.insert_after(y),
+        "ib" => x.insert_before(y),
+        _ => x.detach(),
+    }
+}
+
+/// Is `c` the node `p` or one of its ancestors?  (`p.append(c)` would then close a parent cycle.)
+fn anc_or_self<'a>(p: &'a ANode<'a>, c: &'a ANode<'a>) -> bool {
+    p.ancestors().any(|q| q.same_node(c))
+}
+
+/// Independent oracle on a link dump (S): the five links of every node are mutually consistent.
+fn arena_links_ok(dump: &str) -> Result<(), String> {
+    let f = |s: &str| if s == "-" { None } else { s.parse::<usize>().ok() };
+    let rows: Vec<[Option<usize>; 5]> = dump
+        .split('/')
+        .map(|r| {
+            let v: Vec<_> = r.split(',').map(f).collect();
+            [v[0], v[1], v[2], v[3], v[4]]
+        })
+        .collect();
+    let n = rows.len();
+    let (par, prev, next, first, last) = (0, 1, 2, 3, 4);
+    for p in 0..n {
+        let mut kids = vec![];
+        let mut cur = rows[p][first];
+        while let Some(c) = cur {
+            if c >= n || kids.len() > n {
+                return Err(format!("child chain of {} does not end", p));
+            }
+            kids.push(c);
+            cur = rows[c][next];
+        }
+        if rows[p][last] != kids.last().copied() {
+            return Err(format!("last_child of {} is not the end of its child chain", p));
+        }
+        for (i, &c) in kids.iter().enumerate() {
+            if rows[c][par] != Some(p) {
+                return Err(format!("child {} of {} has parent {:?}", c, p, rows[c][par]));
+            }
+            let want = if i == 0 { None } else { Some(kids[i - 1]) };
+            if rows[c][prev] != want {
+                return Err(format!("previous_sibling of {} is {:?}, expected {:?}", c, rows[c][prev], want));
+            }
+        }
+        for x in 0..n {
+            if rows[x][par] == Some(p) && !kids.contains(&x) {
+                return Err(format!("{} has parent {} but is not in its child chain", x, p));
+            }
+        }
+    }
+    for x in 0..n {
+        if rows[x][par].is_none() && (rows[x][prev].is_some() || rows[x][next].is_some()) {
+            return Err(format!("parentless node {} has a sibling link", x));
+        }
+    }
+    Ok(())
+}
+
+/// Generates one sequence while executing it on real nodes (the operand conditions depend on the state).
+fn arena_gen(rng: &mut Rng, rep: &mut Report) -> ACase {
+    let n = if rng.chance(1, 8) { rng.range(11, 16) } else { rng.range(2, 10) };
+    let len = if rng.chance(1, 10) { rng.range(31, 60) } else { rng.range(1, 30) };
+    let arena: Arena<ANode> = Arena::new();
+    let nodes: Vec<&ANode> = (0..n).map(|i| &*arena.alloc(ANode::new(i))).collect();
+    let mut ops: Vec<AOp> = vec![];
+    let r = catch_unwind(AssertUnwindSafe(|| {
+        let mut ops: Vec<AOp> = vec![];
+        let mut rng2 = rng.clone();
+        for _ in 0..len {
+            let mut chosen: Option<AOp> = None;
+            for _try in 0..8 {
+                let (mut x, c) = (rng2.below(n), rng2.below(n));
+                let kind = rng2.below(10);
+                if kind >= 6 {
+                    // insert_*: prefer a reference node that has a parent
+                    let with_parent: Vec<usize> = (0..n).filter(|&i| nodes[i].parent().is_some()).collect();
+                    if !with_parent.is_empty() {
+                        x = *rng2.pick(&with_parent);
+                    }
+                }
+                let cand: AOp = match kind {
+                    0 => ("d", x, 0),
+                    1 | 2 | 3 => ("a", x, c),
+                    4 | 5 => ("p", x, c),
+                    6 | 7 => ("ia", x, c),
+                    _ => ("ib", x, c),
+                };
+                let ok = match cand.0 {
+                    "d" => true,
+                    "a" | "p" => !anc_or_self(nodes[x], nodes[c]),
+                    _ => match nodes[x].parent() {
+                        Some(par) => x != c && !anc_or_self(par, nodes[c]),
+                        None => false,
+                    },
+                };
+                if ok {
+                    chosen = Some(cand);
+                    break;
+                }
+            }
+            let op = chosen.unwrap_or(("d", rng2.below(n), 0));
+            arena_apply(&nodes, &op);
+            ops.push(op);
+        }
+        (ops, rng2)
+    }));
+    match r {
+        Ok((o, rng2)) => {
+            ops = o;
+            *rng = rng2;
+        }
+        Err(_) => {
+            rng.next();
+            rep.fail("arena-total", "panic-while-generating", format!("arena {}", n), "an arena_tree operation panicked while generating a sequence".into());
+        }
+    }
+    ACase { n, ops }
+}
+
+/// Executes the case on fresh real nodes, records the dump after every operation, pushes the model request.
+fn arena_push<'a>(bt: &mut Batch<'a>, rep: &mut Report, case: ACase) -> Option<String> {
+    let req = arena_request(&case);
+    let arena: Arena<ANode> = Arena::new();
+    let nodes: Vec<&ANode> = (0..case.n).map(|i| &*arena.alloc(ANode::new(i))).collect();
+    let mut dumps: Vec<String> = vec![];
+    for (i, op) in case.ops.iter().enumerate() {
+        if catch_unwind(AssertUnwindSafe(|| arena_apply(&nodes, op))).is_err() {
+            rep.fail("arena-total", op.0, req.clone(), format!("operation {} ({} {} {}) panicked", i, op.0, op.1, op.2));
+            return None;
+        }
+        let d = arena_dump(&nodes);
+        rep.s_evals += 1;
+        if let Err(e) = arena_links_ok(&d) {
+            rep.fail("arena-links-consistent", op.0, req.clone(), format!("after operation {} ({} {} {}): {}; links {}", i, op.0, op.1, op.2, e, d));
+        }
+        dumps.push(d);
+        rep.count(&format!("arena-op-{}", match op.0 { "a" => "append", "p" => "prepend", "ia" => "insert_after", "ib" => "insert_before", _ => "detach" }));
+    }
+    rep.count("arena-sequences");
+    if let Some(last) = dumps.last() {
+        rep.nontrivial(&("arena-final-shape", last.clone()));
+    }
+    let ops = case.ops.clone();
+    let input = req.clone();
+    let last = dumps.last().cloned();
+    bt.push(req, move |resp, rep| {
+        let model: Vec<&str> = if resp.is_empty() { vec![] } else { resp.split(';').collect() };
+        rep.k_evals += dumps.len() as u64;
+        if model.len() != dumps.len() {
+            rep.disagree("arena-links", input, format!("model returned {} dumps for {} operations", model.len(), dumps.len()));
+            return;
+        }
+        for (i, (r, m)) in dumps.iter().zip(model.iter()).enumerate() {
+            if r != m {
+                let op = ops[i];
+                rep.disagree("arena-links", input, format!("after operation {} ({} {} {}): real links {} but model links {}", i, op.0, op.1, op.2, r, m));
+                return;
+            }
+        }
+    });
+    last
+}
+
+fn arena_stage(cfg: &Cfg, rep: &mut Report, m: &Model) {
+    let mut rng = Rng::new(cfg.seed ^ 0xA2E4A);
+    let n = if cfg.tier_thorough { 200_000 } else if cfg.full { 40_000 } else { 8_000 };
+    let mut shapes: std::collections::HashSet<String> = std::collections::HashSet::new();
+    let mut done = 0;
+    // curated: the `it_works` test of arena_tree.rs (same sequence as `itWorks` in Props/C04Arena.lean)
+    let mut bt = Batch::new();
+    let curated = "arena 10 a 0 1 a 0 2 p 0 3 a 4 0 ib 0 5 ib 0 6 ia 0 7 ia 0 8 a 4 9 d 7";
+    arena_push(&mut bt, rep, arena_parse(curated).expect("curated arena case"));
+    bt.run(m, rep);
+    while done < n {
+        let mut bt = Batch::new();
+        for _ in 0..4000.min(n - done) {
+            let case = arena_gen(&mut rng, rep);
+            if done < 2 {
+                rep.sample(arena_request(&case));
+            }
+            if let Some(last) = arena_push(&mut bt, rep, case) {
+                shapes.insert(last);
+            }
+            done += 1;
+        }
+        bt.run(m, rep);
+    }
+    rep.add("arena-distinct-final-shapes", shapes.len() as u64);
 }
